@@ -65,7 +65,7 @@ type DataflowParams struct {
 	Narrow bool   // consumer takes B where the source is A
 	Cons   string // id sums add
 	Alias  bool
-	Pre    bool // a preflight stage in the top pipeline
+	Pre    bool   // a preflight stage in the top pipeline
 	Extra  string // "" chain (a downstream consumer of the result) ret-struct
 }
 
@@ -695,12 +695,18 @@ type FileParams struct {
 	// Second: the consumer (and, with TopOut, the top-level pipeline) also
 	// takes a second file output of the same producer.
 	Second bool `json:",omitempty"`
+	// ConsDis: the first consumer is disabled: "lit" by a pipeline input
+	// bound to true, "dyn" by a stage output that is true at run time.
+	ConsDis string `json:",omitempty"`
 }
 
 func (d FileParams) String() string {
 	sec := ""
 	if d.Second {
 		sec = " second=true"
+	}
+	if d.ConsDis != "" {
+		sec += " consdis=" + d.ConsDis
 	}
 	return fmt.Sprintf("files{out=%s proj=%q prod=%s prodwrap=%v conswrap=%v consmap=%v prodmap=%v late=%v vol=%q retain=%q topout=%v mode=%s size=%d phys=%v%s}",
 		d.Out, d.Proj, d.Prod, d.ProdWrap, d.ConsWrap, d.ConsMap, d.ProdMap, d.Late, d.Vol, d.Retain, d.TopOut, d.Mode, d.Size, d.Phys, sec)
@@ -878,7 +884,7 @@ func FileFlow(d FileParams) *Program {
 			return nil
 		}
 		cw := &Pipeline{Name: "CW", Ins: []Param{{T: valT, Name: "x"}, {T: IntT, Name: "after"}},
-			Outs: []Param{{T: IntT, Name: "seen"}},
+			Outs:  []Param{{T: IntT, Name: "seen"}},
 			Calls: []*Call{{Callee: cons.Name, Alias: "C", Binds: []Bind{{"x", Self("x")}, {"after", Self("after")}}}},
 			Ret:   []Bind{{"seen", Ref("C", "seen")}}}
 		if d.Second {
@@ -913,6 +919,24 @@ func FileFlow(d FileParams) *Program {
 			top.Ret = append(top.Ret, Bind{"seen2", Ref("C2", "seen")})
 		}
 	}
+	if d.ConsDis != "" {
+		var c1 *Call
+		for _, c := range top.Calls {
+			if c.Id() == "C1" {
+				c1 = c
+			}
+		}
+		switch d.ConsDis {
+		case "lit":
+			top.Ins = append(top.Ins, Param{T: BoolT, Name: "off"})
+			c1.Disabled = Self("off")
+		case "dyn":
+			top.Calls = append([]*Call{{Callee: "COND", Binds: []Bind{{"n", Self("n")}}}}, top.Calls...)
+			c1.Disabled = Ref("COND", "b")
+		default:
+			return nil
+		}
+	}
 	top.Outs = append(top.Outs, Param{T: IntT, Name: "slow"})
 	top.Ret = append(top.Ret, Bind{"slow", Ref("SLOW2", "sum")})
 	if d.TopOut {
@@ -925,6 +949,9 @@ func FileFlow(d FileParams) *Program {
 	}
 	p.Pipelines = append(p.Pipelines, top)
 	p.Top = &Call{Callee: "TOP", Binds: []Bind{{"n", Lit(Int(size))}}}
+	if d.ConsDis == "lit" {
+		p.Top.Binds = append(p.Top.Binds, Bind{"off", Lit(Bool(true))})
+	}
 	FixUnused(p)
 	return p
 }
@@ -955,17 +982,19 @@ func FileFamily(maxDev int) []FileParams {
 												for g, topo := range bools {
 													for h, phys := range bools {
 														for k, second := range bools {
-															dev := 0
-															for _, x := range []int{oi, pi, di, ri, a, b, c, e, f, g, h, k} {
-																if x != 0 {
-																	dev++
+															for cdi, cd := range []string{"", "lit", "dyn"} {
+																dev := 0
+																for _, x := range []int{oi, pi, di, ri, a, b, c, e, f, g, h, k, cdi} {
+																	if x != 0 {
+																		dev++
+																	}
 																}
+																if dev > maxDev {
+																	continue
+																}
+																out = append(out, FileParams{Out: o, Proj: pr, Prod: prod, ProdWrap: pw, ConsWrap: cw,
+																	ConsMap: cm, ProdMap: pm, Late: late, Vol: vol, Retain: ret, TopOut: topo, Mode: mode, Size: 2, Phys: phys, Second: second, ConsDis: cd})
 															}
-															if dev > maxDev {
-																continue
-															}
-															out = append(out, FileParams{Out: o, Proj: pr, Prod: prod, ProdWrap: pw, ConsWrap: cw,
-																ConsMap: cm, ProdMap: pm, Late: late, Vol: vol, Retain: ret, TopOut: topo, Mode: mode, Size: 2, Phys: phys, Second: second})
 														}
 													}
 												}
@@ -1184,7 +1213,6 @@ func OutsFamily(thorough bool) []OutsParams {
 	return out
 }
 
-
 // ---------------------------------------------------------------------------
 // C11: fork identities.  A two-level nest of mapped calls whose sources are
 // arrays or typed maps with adversarial keys, literal or produced at run time.
@@ -1197,6 +1225,10 @@ type KeyParams struct {
 	InnerDyn bool
 	InnerSel int
 	Chunks   int // 0: no split leaf; n: the split leaf SUMS has n chunks
+	// InnerLocal (with InnerDyn): the stage producing the inner collection is
+	// called INSIDE the mapped pipeline (one producer per outer fork) and the
+	// leaf is mapped over a sibling's output rather than a pipeline input.
+	InnerLocal bool `json:",omitempty"`
 	// Ragged ("arr" or "map"): the outer call maps over an array whose
 	// elements are themselves the inner collections (arrays / typed maps of
 	// different sizes, shape OuterSel); Outer/Inner are ignored.
@@ -1207,7 +1239,11 @@ func (d KeyParams) String() string {
 	if d.Ragged != "" {
 		return fmt.Sprintf("keys{ragged=%s/%v/%d chunks=%d}", d.Ragged, d.OuterDyn, d.OuterSel, d.Chunks)
 	}
-	return fmt.Sprintf("keys{outer=%s/%v/%d inner=%s/%v/%d chunks=%d}", d.Outer, d.OuterDyn, d.OuterSel, d.Inner, d.InnerDyn, d.InnerSel, d.Chunks)
+	loc := ""
+	if d.InnerLocal {
+		loc = " innerlocal"
+	}
+	return fmt.Sprintf("keys{outer=%s/%v/%d inner=%s/%v/%d chunks=%d%s}", d.Outer, d.OuterDyn, d.OuterSel, d.Inner, d.InnerDyn, d.InnerSel, d.Chunks, loc)
 }
 
 // raggedFlow: map call INNER(c = split <array of collections>) where INNER
@@ -1311,8 +1347,12 @@ func KeyFlow(d KeyParams) *Program {
 		return int64(s)
 	}
 	top := &Pipeline{Name: "TOP", Ins: []Param{{T: IntT, Name: "n"}}}
-	if d.InnerDyn {
-		top.Calls = append(top.Calls, &Call{Callee: "KEYS", Alias: "KIN", Binds: []Bind{{"sel", Lit(Int(sel(d.Inner, d.InnerSel)))}}})
+	if d.InnerLocal && !d.InnerDyn {
+		return nil
+	}
+	kin := &Call{Callee: "KEYS", Alias: "KIN", Binds: []Bind{{"sel", Lit(Int(sel(d.Inner, d.InnerSel)))}}}
+	if d.InnerDyn && !d.InnerLocal {
+		top.Calls = append(top.Calls, kin)
 	}
 	if d.Outer != "" && d.OuterDyn {
 		top.Calls = append(top.Calls, &Call{Callee: "KEYS", Alias: "KOUT", Binds: []Bind{{"sel", Lit(Int(sel(d.Outer, d.OuterSel)))}}})
@@ -1326,7 +1366,13 @@ func KeyFlow(d KeyParams) *Program {
 	}
 	// INNER maps the leaves over its collection input
 	inner := &Pipeline{Name: "INNER", Ins: []Param{{T: IntT, Name: "x"}, {T: innerT, Name: "c"}}}
-	inner.Calls = append(inner.Calls, &Call{Callee: "ADD", Map: true, Binds: []Bind{{"a", Self("x")}, {"b", SplitE(Self("c"))}}})
+	leafSrc := Self("c")
+	if d.InnerLocal {
+		inner.Ins = inner.Ins[:1]
+		inner.Calls = append(inner.Calls, kin)
+		leafSrc = innerSrc
+	}
+	inner.Calls = append(inner.Calls, &Call{Callee: "ADD", Map: true, Binds: []Bind{{"a", Self("x")}, {"b", SplitE(leafSrc)}}})
 	inner.Outs = append(inner.Outs, Param{T: collOf(d.Inner, IntT), Name: "zs"})
 	inner.Ret = append(inner.Ret, Bind{"zs", Ref("ADD", "sum")})
 	if d.Chunks > 0 {
@@ -1354,6 +1400,9 @@ func KeyFlow(d KeyParams) *Program {
 	}
 	p.Pipelines = append(p.Pipelines, inner)
 	call := &Call{Callee: "INNER", Binds: []Bind{{"x", Self("n")}, {"c", innerSrc}}}
+	if d.InnerLocal {
+		call.Binds = call.Binds[:1]
+	}
 	outT := func(t *T) *T { return t }
 	if d.Outer != "" {
 		outerSrc, _ := keySource(d.Outer, d.OuterDyn, d.OuterSel, "KOUT")
@@ -1434,7 +1483,6 @@ func KeyFamily(thorough bool) []KeyParams {
 	return out
 }
 
-
 // NestFamily is the part of the key family used by the dataflow checks:
 // two-level nests with plain keys.
 func NestFamily(thorough bool) []KeyParams {
@@ -1460,10 +1508,18 @@ func NestFamily(thorough bool) []KeyParams {
 			}
 		}
 	}
+	for _, o := range outers {
+		for _, in := range inners {
+			for _, od := range []bool{false, true} {
+				for _, ch := range []int{0, 2} {
+					out = append(out, KeyParams{Outer: o.kind, OuterDyn: od, OuterSel: o.sel, Inner: in.kind, InnerDyn: true, InnerLocal: true, InnerSel: in.sel, Chunks: ch})
+				}
+			}
+		}
+	}
 	out = append(out, RaggedFamily(thorough)...)
 	return out
 }
-
 
 // FileCrashShapes are the file-flow programs whose runs are interrupted at
 // every effect (C04/C14 crash-restart phase).
